@@ -364,38 +364,71 @@ func checkJ7(c *Ctx, jr *joinRoles) {
 func checkJ8(c *Ctx, jr *joinRoles) {
 	p := jr.p
 	jf := jr.flow()
-	for _, fn := range jr.loops {
-		var problems []string
-		jf.run(fn, "clean", jhandler{
-			on: func(fr *Frame, st string, ev jev) []string {
-				switch ev.kind {
-				case "ingest", "bufwrite":
-					return []string{fsMode(st, "dirty")}
-				case "emit":
-					if p.payloadOrigin(fr, ev.v).origin == "B" {
-						return []string{fsMode(st, "clean")}
+	// run from the goroutine entry: the final flush may be deferred by the loop function or by the
+	// entry that calls it; what matters is that the goroutine does not end with elements in the buffer
+	isLoop := map[*ssa.Function]int{}
+	for i, fn := range jr.loops {
+		isLoop[fn] = i
+	}
+	problems := map[int][]string{}
+	jf.run(jr.entry, "clean", jhandler{
+		on: func(fr *Frame, st string, ev jev) []string {
+			switch ev.kind {
+			case "ingest", "bufwrite":
+				return []string{fsMode(st, "dirty")}
+			case "emit":
+				if fsHas(st, "outclosed") {
+					problems[-1] = append(problems[-1], "the output is written at "+p.InstrPos(ev.in)+" after it was closed (the final flush is deferred before the close, so it runs after it): the tail is lost in a panic")
+				}
+				if p.payloadOrigin(fr, ev.v).origin == "B" {
+					return []string{fsMode(st, "clean")}
+				}
+			case "outclose":
+				return []string{fsWith(st, []string{"outclosed"}, nil)}
+			case "stop", "unrel+":
+				return []string{fsMode(st, "clean")} // a rough stop may drop the tail
+			}
+			return nil
+		},
+		edge: func(fr *Frame, st string, facts []string, e CondEdge) string {
+			for _, f := range facts {
+				if f == "empty" && !fsHas(st, "nonempty") && !fsHas(st, "full") {
+					return fsMode(st, "clean")
+				}
+			}
+			return ""
+		},
+		exit: func(fr *Frame, st string, ret *ssa.Return) []string {
+			if i, ok := isLoop[fr.Fn]; ok && fr.Parent != nil && jMode(st) == "dirty" {
+				// remember which loop function was left with a tail; a caller's defer may still flush it
+				return []string{fsWith(st, []string{fmt.Sprintf("left:%d:%s", i, p.InstrPos(ret))}, nil)}
+			}
+			if fr.Parent == nil && jMode(st) == "dirty" {
+				_, facts := fsSplit(st)
+				found := false
+				for f := range facts {
+					if strings.HasPrefix(f, "left:") {
+						parts := strings.SplitN(f, ":", 3)
+						var i int
+						fmt.Sscanf(parts[1], "%d", &i)
+						problems[i] = append(problems[i], "a path leaves the loop function at "+parts[2]+" with elements still in the buffer and no later flush before the goroutine ends: the accumulated tail is lost at end of input")
+						found = true
 					}
-				case "stop", "unrel+":
-					return []string{fsMode(st, "clean")} // a rough stop may drop the tail
 				}
-				return nil
-			},
-			edge: func(fr *Frame, st string, facts []string, e CondEdge) string {
-				for _, f := range facts {
-					if f == "empty" && !fsHas(st, "nonempty") && !fsHas(st, "full") {
-						return fsMode(st, "clean")
+				if !found {
+					idx := -1
+					if i, ok := isLoop[fr.Fn]; ok {
+						idx = i
 					}
+					problems[idx] = append(problems[idx], "a path leaves the goroutine at "+p.InstrPos(ret)+" with elements still in the buffer: the accumulated tail is lost at end of input")
 				}
-				return ""
-			},
-			exit: func(fr *Frame, st string, ret *ssa.Return) []string {
-				if fr.Parent == nil && jMode(st) == "dirty" {
-					problems = append(problems, "a path leaves the loop function at "+p.InstrPos(ret)+" with elements still in the buffer: the accumulated tail is lost at end of input")
-				}
-				return nil
-			},
-		})
-		c.R.Check(len(problems) == 0, "J8", joinKey(jr, fn, ""), p.Pos(fn.Pos()), "the accumulated tail is flushed on every exit of the loop function", strings.Join(dedup(problems), "; "))
+			}
+			return nil
+		},
+	})
+	for i, fn := range jr.loops {
+		pr := append(problems[i], problems[-1]...)
+		c.R.Check(len(pr) == 0, "J8", joinKey(jr, fn, ""), p.Pos(fn.Pos()), "the accumulated tail is flushed on every path from the loop function to the end of the goroutine", strings.Join(dedup(pr), "; "))
 	}
 	order, okd := DeferRunOrder(jr.entry)
 	closes := false
